@@ -22,7 +22,7 @@ func init() {
 			"C03.num: captures 1,2,3 flow through strconv.ParseUint(·,10,64), the error is tested, the failing edge returns the matching sentinel, the value reaches the field of the same name; captures 4,5 reach PreRelease/Build through copying conversions; L(capture k) = 0|[1-9][0-9]* for k ≤ 3. " +
 			"C03.skel: the formatter's append sequence read off SSA is the regexp's concatenation skeleton with the same literals in the same order. " +
 			"C03.valid: L(sem.preRelease) / L(sem.build) equal the projections of captures 4 / 5; Valid skips the test exactly when the field is empty, the formatter omits exactly when empty. S-ERRZERO, S-WRAP, C18.L for package sem. C03.alias: the strings stored into Ver are copies or immutable string values and package sem (and internal) do not import unsafe — the yielded pre-release and build texts cannot be views of the caller's bytes (sem part of C17.alias). The skeleton of sem.pattern (content of captures abstracted) is ^<1>.<2>.<3>[-<4>][+<5>]$: the matched text is the concatenation of its captures and the literals the formatter writes between them." +
-			" Added after the second rule audit: the gate table is extracted in three worlds — limit off, limit set with the text within it (same table demanded), and the empty text (refused with the typed error and a zero value); Ver's fields are looked up by name; len(parts) against 1+NumCap is an admissible match test; C03.limit reads the default: 0 or at least the 63 bytes of the longest version without pre-release and build.",
+			" Added after the second rule audit: the gate table is extracted in three worlds — limit off, limit set with the text within it (same table demanded), and the empty text (refused with the typed error and a zero value); Ver's fields are looked up by name; len(parts) against 1+NumCap is an admissible match test; C03.limit reads the default: 0 or at least the 63 bytes of the longest version without pre-release and build. Since audit round 3 the gate table is extracted in five worlds: limit off, limit on (text shorter), text exactly at the limit, empty text, empty text with the limit on.",
 		NotDecided:  []string{"stdlib summaries (ParseUint exact or error, AppendUint canonical decimal)", "texts longer than MaxInputLength are rejected by the limit, outside the statement (the default is only required to admit every version without pre-release and build, 63 bytes)"},
 		Assumptions: []string{"'formatting the result reproduces the input' is read per form: a Ver does not record the form it was parsed from, so the version-form text is reproduced by the version-form formatters (String, MarshalText, %v) and the tag-form text by the tag-form ones (StringTag, %t); C03.skel decides both forms separately", "regexp executes the automaton regexp/syntax compiles", "strconv.ParseUint(s,10,64) is exact or fails; AppendUint prints canonical decimal"},
 		Technique:   "regular-language equality on DFAs (two independent oracles) + decision-table extraction + dataflow over go/ssa",
